@@ -39,7 +39,8 @@ CHECKS.update({
                 "and BitStream from every position; Ref.tla explored as a state graph (0<=pos<=len in every reachable state of three "
                 "live objects, at most the target changes per step) and its simulated behaviours replayed; (C) seeded random "
                 "sequences of stream operations incl. token reads and readlist / peeklist of random token lists from random "
-                "positions."),
+                "positions. The (length, position) abstraction PosMachine.tla is proved inductive by Apalache (any length) and "
+                "TLC checks that the Ref machine refines it."),
     'C07': core("Model-based: the brute-force definition (set comprehension Matches in BitSeq.tla) is evaluated by TLC on every "
                 "recorded search call: exhaustively for every content up to 2-3 bits x pattern x window x count, and on seeded "
                 "random/periodic/constant data up to 300 bits (thorough: 20000 bits) with planted aligned/unaligned occurrences "
